@@ -17,10 +17,36 @@ ID = "C01"
 LEAN_MODULES = ["Ebv.Props.C01"]
 MODEL_MODULES = ["Ebv.Model.Gen"]
 DRIVER = "Drivers/C01.lean"
-THEOREMS = []
-TRUSTED = []
-ASSUMPTIONS = []
-RULE = ""
+THEOREMS = [
+    "Ebv.Ebpf.exec_append", "Ebv.Ebpf.run_of_exec",
+    "Ebv.Gen.load_agree", "Ebv.Gen.calc_correct", "Ebv.Gen.setReg_correct", "Ebv.Gen.setMem_correct",
+    "Ebv.Gen.evalBV_eq_evalZ", "Ebv.Gen.elab_evalZ",
+    "Ebv.C01.assign_correct_reg", "Ebv.C01.assign_correct_mem", "Ebv.C01.stmts_correct", "Ebv.C01.C01_core",
+    "Ebv.C01.C01_partial", "Ebv.C01.load_shift_is_setitem",
+    "Ebv.C01.C01_full_refuted", "Ebv.C01.unary_in_place_refuted", "Ebv.C01.unary_32_in_64_refuted",
+    "Ebv.C01.narrow_reg_in_64_refuted", "Ebv.C01.sum_minus_refuted", "Ebv.C01.abs_32_refuted",
+    "Ebv.C01.divmod_negative_refuted", "Ebv.C01.rshift_negative_refuted",
+]
+TRUSTED = ["hand-written model Ebv.Gen of the expression code generator (ebpfcat/ebpf.py: operator protocol, calculate/load/"
+           "_set/__setitem__, get_free_register), tied by EXACT opcode-list equality with the real generator on generated "
+           "programs (only as far as the generated programs reach)",
+           "instruction semantics Ebv.Ebpf, validated three-way (Lean / harness/vh/interp.py / kernel BPF_PROG_TEST_RUN)",
+           "harness/vh/dsl.py (builds the real objects from JSON), harness/vh/interp.py (executes the real code for the oracle)",
+           "Opcode table, FIXED_BASE and the small-constant window regenerated from /repo into Ebv.Generated.Consts"]
+ASSUMPTIONS = ["registers in `owned` are declared by assigning EBPF.owners before the first statement; array-map variables are "
+               "addressed through r7 (the ArrayMap.init prologue is emitted by the real class but not part of the compared code)",
+               "flat byte memory: bounds and alignment are the verifier's business (C05); little-endian host",
+               "the oracle checks each statement from the machine state the previous statements left, inside the "
+               "precondition of DESIGN §4 C01 (W-bit fit below // % >> abs, shift counts in [0, W), divisors non-zero), "
+               "for well-typed programs (every register read is owned)"]
+RULE = ("programs = JSON surface DSL (dsl.py): random trees to depth 5 over registers in the views r/sr/w/sw, variables of the "
+        "formats B H I Q b h i q (stack and array-map), constants from the classes {0, +-1, small, +-2^31 edges, >= 2^32, "
+        "negative 64-bit, > 2^64}, operators + - * | ^ << & >> // % neg abs and computed addresses; the depth-1 family "
+        "(operator x leaf kind x leaf kind x destination kind x constant class) and the depth-2 family (two operators x shape x "
+        "leaf kind classes), sampled in the quick tier and enumerated (stage 3 depth 2: 60000 sampled) in the thorough tier; targeted "
+        "shapes (Sum +- int, Sum - expr, Binary + Sum, destination aliasing, register pressure, unowned registers); "
+        "inputs = boundary (0, +-1, sign bits, all-ones, width edges) and random register/variable contents, half of them small "
+        "so that products and quotients stay inside the precondition; non-trivial = accepted with more than one instruction")
 
 M64 = dsl.M64
 EDGE64 = [0, 1, 2, 3, 0x7f, 0x80, 0xff, 0x7fff, 0x8000, 0xffff, 0x7fffffff, 0x80000000, 0xffffffff, 0x100000000,
@@ -103,53 +129,63 @@ def stmt_classes(E, stmt, obj, fm, surface_flags):
     return out
 
 
-def input_classes(expr, regs, vars_):
-    """classes that depend on the operand values (reference semantics of the surface expression)"""
+def eval_obj(E, v, regs, varat):
+    """mathematical value of the object tree the operator overloads built (Python integer semantics per Opcode);
+    varat(base, off, fmt) reads a variable; raises Outside where the value is undefined"""
+    if isinstance(v, int):
+        return v
+    if isinstance(v, E.Constant):
+        return int(v.value)
+    if isinstance(v, E.Register):
+        return dsl.view_value(("s" if v.signed else "") + ("r" if v.long else "w"), regs[v.no])
+    if isinstance(v, E.Negate):
+        return -eval_obj(E, v.arg, regs, varat)
+    if isinstance(v, E.Absolute):
+        return abs(eval_obj(E, v.arg, regs, varat))
+    if isinstance(v, E.Memory):
+        if not isinstance(v.address, E.Sum):
+            raise dsl.Outside("computed address")
+        return varat(v.address.left.no, v.address.right.value, v.fmt)
+    a, b = eval_obj(E, v.left, regs, varat), eval_obj(E, v.right, regs, varat)
+    op = v.operator.name
+    if op in ("DIV", "MOD"):
+        if b == 0:
+            raise dsl.Outside("division by zero")
+        return a // b if op == "DIV" else a % b
+    if op in ("LSH", "RSH", "ARSH"):
+        if not 0 <= b <= 4096:
+            raise dsl.Outside("shift count")
+        return a << b if op == "LSH" else a >> b
+    return {"ADD": a + b, "SUB": a - b, "MUL": a * b, "OR": a | b, "AND": a & b, "XOR": a ^ b}[op]
+
+
+def input_classes(E, obj, regs, varat):
+    """classes that depend on the operand values: evaluated on the object tree the real operator overloads built,
+    so that `>>` is known to be logical (RSH) or arithmetic (ARSH)"""
     out = set()
 
     def val(x):
         try:
-            return dsl.eval_ref(x, regs, vars_)
-        except dsl.Outside:
-            return set()
+            return eval_obj(E, x, regs, varat)
+        except (dsl.Outside, KeyError):
+            return None
 
-    def signed_typed(x):
-        """the Python-side `signed` attribute of the object a surface expression builds (approximation used only to
-        tell ARSH from RSH: registers by view, variables by format, constants by sign, operators by their rule)"""
-        k = x[0]
-        if k in ("sr", "sw"):
-            return True
-        if k in ("r", "w"):
-            return False
-        if k == "c":
-            return x[1] < 0
-        if k == "neg":
-            return True
-        if k in ("abs", "&"):
-            return False
-        if k == "m":
-            return x[1].islower()
-        if k == "v":
-            return None          # decided by the caller through fm
-        if k == ">>":
-            return signed_typed(x[1])
-        a, b = signed_typed(x[1]), signed_typed(x[2])
-        return None if a is None or b is None else a or b
-
-    def go(x):
-        k = x[0]
-        if k in ("c", "v") or k in dsl.VIEWS:
-            return
-        if k in ("neg", "abs"):
-            return go(x[1])
-        if k == "m":
-            return go(x[2])
-        go(x[1]); go(x[2])
-        if k in ("//", "%") and (any(v < 0 for v in val(x[1])) or any(v < 0 for v in val(x[2]))):
-            out.add("divmod-negative")
-        if k == ">>" and any(v < 0 for v in val(x[1])):
-            out.add("rshift-negative-logical")
-    go(expr)
+    def go(v):
+        if isinstance(v, E.Unary):
+            go(v.arg)
+        elif isinstance(v, E.Memory):
+            if not isinstance(v.address, E.Sum):
+                go(v.address)
+        elif isinstance(v, E.Binary):
+            go(v.left)
+            go(v.right)
+            a, b = val(v.left), val(v.right)
+            if v.operator.name in ("DIV", "MOD") and ((a is not None and a < 0) or (b is not None and b < 0)):
+                out.add("divmod-negative")
+            if v.operator.name == "RSH" and a is not None and a < 0:
+                out.add("rshift-negative-logical")
+    if not isinstance(obj, int) and obj is not None:
+        go(obj)
     return out
 
 
@@ -248,6 +284,8 @@ def check_program(ctx, prog, built, insns, inputs_list, replaying=False):
             regview = dict(regs)
             regview.setdefault(10, interp.STACK_TOP)
             pcls = stmt_classes(E, st, built.objs[i], R.fm, built.flags[i])
+            byloc = {(b, off): n for n, (b, off, f) in R.layout.items()}
+            varat = lambda base, off, fmt, _v=vals, _b=byloc: _v[_b[(base, off)]]
             try:
                 ref = dsl.eval_ref(expr, regview, vals)
                 inside = dsl.pre_holds(expr, regview, vals, W)
@@ -269,7 +307,7 @@ def check_program(ctx, prog, built, insns, inputs_list, replaying=False):
                     continue
             if isinstance(res, str):
                 if inside:
-                    icls = input_classes(expr, regview, vals)
+                    icls = input_classes(E, built.objs[i], regview, varat)
                     cls = first_class(pcls, icls)
                     ctx.require(False, "generated code faults inside the precondition", case, res, cls)
                     status.append("fault")
@@ -280,7 +318,7 @@ def check_program(ctx, prog, built, insns, inputs_list, replaying=False):
             if not inside:
                 status.append("outside")
             else:
-                icls = input_classes(expr, regview, vals)
+                icls = input_classes(E, built.objs[i], regview, varat)
                 cls = first_class(pcls, icls)
                 if dest[0] == "v":
                     f = R.fm[dest[1]]
@@ -396,9 +434,38 @@ def replay(ctx, case):
     return {"emit": res, "status": st, "classes": canon_real(res, built).split(" | ")[-1]}
 
 
-CORRESPONDED_NOT_PROVED = []
-PROVED = []
-LEVEL_TEXT = ""
-LEVEL_NOTE = ""
+PROVED = [
+    "constants of any size (MOV imm / LD_IMM64)", "registers in the views r sr w sw (in place, forced 32/64-bit move)",
+    "Binary incl. Sum and AndExpression at machine level for ALL operators (ADD SUB MUL DIV OR AND LSH RSH MOD XOR ARSH): "
+    "immediate vs register form, temporary + final move when the right operand mentions the destination, release order",
+    "Negate", "LocalVar / array-map variable reads of all eight formats (load + shift-pair sign extension)",
+    "RegisterArray.__setitem__", "Memory._set (ST immediate and STX path, truncation by store width)",
+    "integer semantics (evalBV = evalZ) for + - * | & ^ << and unary minus; operator-overload layer (elab_evalZ) for all operators",
+]
+CORRESPONDED_NOT_PROVED = [
+    "abs (Absolute: forward JSGE + NEG64) -- modelled + corresponded + oracle; outside Expr.frag",
+    "computed addresses mB[...]..mq[...] with a non-Sum address (Expression.calculate/Memory.get_address) -- modelled + corresponded; "
+    "not executed by the oracle; outside Expr.frag (a Sum address, e.g. mB[r3 + 8], IS inside calc_correct)",
+    "// % >> : calc_correct proves the machine-level value (evalBV with the kernel's unsigned DIV/MOD, RSH/ARSH); the integer-level "
+    "statement under the W-bit fit precondition is not proved (evalBV_eq_evalZ covers + - * | & ^ << neg only)",
+    "requested width None (long inherited from the left operand; only reachable from comparisons, C03): modelled, not proved",
+    "shift-range precondition is stated on the built tree (shiftsOk), not re-derived from the surface tree",
+]
+LEVEL_TEXT = ("Lean 4 proof by structural induction over expression trees of a hand-written model (Ebv.Gen) of the ebpfcat expression "
+              "code generator: calc_correct (for every tree of the fragment, destination, width and generator state: the emitted "
+              "non-jump segment computes the bit-vector value into the result register at the requested width, leaves every other "
+              "owned register and memory alone, restores owners), evalBV_eq_evalZ (ring homomorphism Z -> BitVec 64/32 incl. & | ^ and "
+              "<< under the shift-range precondition), elab_evalZ (the Python operator protocol preserves the value), assign/program "
+              "theorems in terms of the validated instruction semantics Ebpf.run, C01_partial with the defect classes excluded by a "
+              "decidable predicate, C01_full_refuted and one kernel-evaluated witness per defect class. Tie: exact opcode-list "
+              "equality of the real generator and Gen (plus object trees, rejections and class predicates) on generated programs every "
+              "run; the oracle executes the real code in an independent interpreter against Python big integers.")
+LEVEL_NOTE = ("trusted: Lean kernel + propext/Classical.choice/Quot.sound; Gen <-> Python only as far as the generated programs reach; "
+              "ISA model validated, not verified. Proved by induction: constants, register views, all Binary operators at machine level, "
+              "Negate, variable reads/writes of the 8 formats, both store paths, __setitem__; integer level for + - * | & ^ << neg. "
+              "Corresponded + oracle only (NOT proved): abs, computed non-Sum addresses, integer-level // % >>, width None. Known defect "
+              "classes of the unchanged tree (each refuted in Lean on a witness): unary-in-place, unary-32-in-64, narrow-reg-in-64, "
+              "sum-minus, abs-32, divmod-negative, rshift-negative-logical. Also seen, outside the property: Sum +- int returns None "
+              "(TypeError at assignment); a register nobody owns is accepted while it is handed out as a temporary.")
 TECHNIQUE = "Lean 4 structural induction over expression trees (compiler correctness) + exact opcode-list correspondence"
 DESIGN_REF = "§4 C01"
